@@ -637,16 +637,21 @@ impl S3 for FileSystem {
             }
 
             let start: u64 = parts[0].parse().map_err(|_| s3_error!(InvalidArgument))?;
-            let mut end = file_len - 1;
-            if parts[1].is_empty().not() {
-                end = parts[1].parse().map_err(|_| s3_error!(InvalidArgument))?;
+            let end: u64 = if parts[1].is_empty() {
+                file_len.checked_sub(1).ok_or_else(|| s3_error!(InvalidRange))?
+            } else {
+                parts[1].parse().map_err(|_| s3_error!(InvalidArgument))?
+            };
+            if start > end || end >= file_len {
+                return Err(s3_error!(InvalidRange));
             }
-            (start, end)
+            (start, end + 1)
         } else {
-            (0, file_len - 1)
+            (0, file_len)
         };
 
-        let content_length = end - start + 1;
+        // `end` is exclusive: an empty source object is copied as an empty part
+        let content_length = end - start;
         let content_length_usize = try_!(usize::try_from(content_length));
 
         let _ = try_!(src_file.seek(io::SeekFrom::Start(start)).await);
